@@ -8,7 +8,9 @@
       visit_If / visit_For / visit_AsyncFor / visit_While   register_stmts(*node.body, *node.orelse)
       visit_With / visit_AsyncWith                          register_stmts(*node.body)
       visit_Try     register_stmts(*node.body, *node.orelse, *node.finalbody, *(handlers' bodies))
-      (no visit_Match, no visit_TryStar; visit_ClassDef / visit_FunctionDef add ONE symbol, no descent)
+      visit_TryStar self.visit_Try(node)                                  (since /repo 6e8e4cc)
+      visit_Match   register_stmts(*(stmt for case in node.cases for stmt in case.body))   (since 6e8e4cc)
+      (visit_ClassDef / visit_FunctionDef add ONE symbol, no descent)
 
   (Tie A: `Generated.C12.blockVisitors`, regenerated from the class on every run.)
 
@@ -28,9 +30,12 @@ inductive Blk (α : Type) where
   | loopS (body orelse : List (Blk α))
   /-- `ast.With`, `ast.AsyncWith` -/
   | withS (body : List (Blk α))
-  /-- `ast.Try`; `handlers` = the bodies of the handlers, concatenated in order -/
+  /-- `ast.Try`, `ast.TryStar` (`visit_TryStar` calls `visit_Try`); `handlers` = the bodies of the handlers,
+  concatenated in order -/
   | tryS (body handlers orelse final : List (Blk α))
-  /-- a statement whose class has no descending visitor (`Match`, `TryStar`, `ClassDef`, `FunctionDef`, …);
+  /-- `ast.Match`; `cases` = the bodies of the cases, concatenated in order -/
+  | matchS (cases : List (Blk α))
+  /-- a statement whose class has no descending visitor (`ClassDef`, `FunctionDef`, …);
   `kids` = every statement below it, in source order -/
   | noVisit (kids : List (Blk α))
   deriving Repr
@@ -45,6 +50,7 @@ def reg : Blk α → List α
   | .loopS b o => regL b ++ regL o
   | .withS b => regL b
   | .tryS b h o f => regL b ++ (regL o ++ (regL f ++ regL h))
+  | .matchS c => regL c
   | .noVisit _ => []
 /-- `register_stmts(*stmts)` -/
 def regL : List (Blk α) → List α
@@ -60,6 +66,7 @@ def written : Blk α → List α
   | .loopS b o => writtenL b ++ writtenL o
   | .withS b => writtenL b
   | .tryS b h o f => writtenL b ++ (writtenL h ++ (writtenL o ++ writtenL f))
+  | .matchS c => writtenL c
   | .noVisit k => writtenL k
 def writtenL : List (Blk α) → List α
   | [] => []
@@ -74,6 +81,7 @@ def descended : Blk α → Bool
   | .loopS b o => descendedL b && descendedL o
   | .withS b => descendedL b
   | .tryS b h o f => descendedL b && descendedL h && descendedL o && descendedL f
+  | .matchS c => descendedL c
   | .noVisit _ => false
 def descendedL : List (Blk α) → Bool
   | [] => true
@@ -88,10 +96,27 @@ def tryFree : Blk α → Bool
   | .loopS b o => tryFreeL b && tryFreeL o
   | .withS b => tryFreeL b
   | .tryS _ _ _ _ => false
+  | .matchS c => tryFreeL c
   | .noVisit _ => false
 def tryFreeL : List (Blk α) → Bool
   | [] => true
   | x :: r => tryFree x && tryFreeL r
+end
+
+mutual
+/-- The same module body as the code BEFORE /repo 6e8e4cc walked it: no `visit_Match` (an `except*` statement
+cannot be told from a `try` in `Blk`; it was lost in the same way). -/
+def before6e8e4cc : Blk α → Blk α
+  | .leaf a => .leaf a
+  | .ifS b o => .ifS (before6e8e4ccL b) (before6e8e4ccL o)
+  | .loopS b o => .loopS (before6e8e4ccL b) (before6e8e4ccL o)
+  | .withS b => .withS (before6e8e4ccL b)
+  | .tryS b h o f => .tryS (before6e8e4ccL b) (before6e8e4ccL h) (before6e8e4ccL o) (before6e8e4ccL f)
+  | .matchS c => .noVisit c
+  | .noVisit k => .noVisit k
+def before6e8e4ccL : List (Blk α) → List (Blk α)
+  | [] => []
+  | x :: r => before6e8e4cc x :: before6e8e4ccL r
 end
 
 /-- The visitor table the model transcribes: per `ast` statement class that has child statement lists,
@@ -104,8 +129,8 @@ def visitorTable : List (String × String) :=
    ("With", "self.register_stmts(*node.body)"),
    ("AsyncWith", "self.register_stmts(*node.body)"),
    ("Try", "self.register_stmts(*node.body, *node.orelse, *node.finalbody, *(stmt for handler in node.handlers for stmt in handler.body))"),
-   ("TryStar", "<no visit_ method>"),
-   ("Match", "<no visit_ method>"),
+   ("TryStar", "self.visit_Try(node)"),
+   ("Match", "self.register_stmts(*(stmt for case in node.cases for stmt in case.body))"),
    ("ClassDef", "self.context.add(Class.from_class_def(node))"),
    ("FunctionDef", "self.context.add(Func.from_fn_def(node))"),
    ("AsyncFunctionDef", "self.context.add(Func.from_fn_def(node))")]
